@@ -282,3 +282,56 @@ func H_C09_sites() {
 	vfNote(out)
 	vfAssert(out == "O"+want+"|Dfalse", "the call renders / evaluates as documented at this site and leaks nothing back")
 }
+
+// H_C09_computedTwice: one include / exec / includeIfExists call site whose template name
+// is computed from data is executed several times with different names - in a range over
+// three names (symbolic order), and again in a second Execute with another name: every
+// execution resolves the name it is given (nothing about the target is remembered at the
+// call site).
+//
+//gosym:reach rendered
+func H_C09_computedTwice() {
+	kind := ndChoice("kind", 3)
+	names := []string{"a", "b", "c"}
+	o1, o2, o3 := ndChoice("n1", 3), ndChoice("n2", 3), ndChoice("n3", 3)
+	order := []string{names[o1], names[o2], names[o3]}
+	second := names[ndChoice("second", 3)]
+	call := []string{
+		`{{ include "/t/" + n + ".jet" }}`,
+		`{{ exec("/e/" + n + ".jet") }}`,
+		`{{ if includeIfExists("/t/" + n + ".jet") }}{{ end }}`,
+	}[kind]
+	set := hxSet([]Option{WithSafeWriter(nil)},
+		"/m.jet", `{{ range _, n := order }}`+call+`;{{ end }}`,
+		"/one.jet", `{{ n := pick }}`+call,
+		"/t/a.jet", `A`, "/t/b.jet", `B`, "/t/c.jet", `C`,
+		"/e/a.jet", `x{{ return "ra" }}`, "/e/b.jet", `y{{ return "rb" }}`, "/e/c.jet", `z{{ return "rc" }}`,
+	)
+	vars := make(VarMap)
+	vars.Set("order", order)
+	out, err := hxExec(set, "/m.jet", vars, nil)
+	vfReach("rendered")
+	vfAssert(err == nil, "renders")
+	want := ""
+	up := map[string]string{"a": "A", "b": "B", "c": "C"}
+	for _, n := range order {
+		if kind == 1 {
+			want += "r" + n + ";"
+		} else {
+			want += up[n] + ";"
+		}
+	}
+	vfNote(out)
+	vfAssert(out == want, "each execution of the call site resolves the name it computes")
+	// the same call site in another template, executed twice with different data
+	for _, pick := range []string{order[0], second} {
+		v2 := make(VarMap)
+		v2.Set("pick", pick)
+		o, e := hxExec(set, "/one.jet", v2, nil)
+		w := up[pick]
+		if kind == 1 {
+			w = "r" + pick
+		}
+		vfAssert(e == nil && o == w, "a later Execute with another name renders that template")
+	}
+}
